@@ -1,3 +1,22 @@
+//go:build ignore
+
+// Native demonstration of H16 (DESIGN.md 9.3), kept for the record; not part of any
+// registered check. To run it: copy this file into a scratch worktree of the
+// repository at c5ad504 (the parent of the repair 4b170fb) as zz_h16_probe_test.go,
+// remove the build constraint above, and run
+//
+//	go test -vet=off -count=1 -run TestZZProbeTruncateFollowUpFails .
+//
+// There it fails ("acknowledged sync, but the restored database has 40 of 41
+// filler rows"); on 4b170fb and later it passes.
+//
+// Schedule: litestream runs a TRUNCATE checkpoint; right before its PRAGMA (a
+// context whose Done method looks at its own call stack gets control there) the
+// application commits a row on pages of its own; from then on the staging-file
+// opener reports ENOSPC once, so the boundary snapshot after the checkpoint fails;
+// space comes back, the application commits again, SyncAndWait succeeds, and the
+// replica is restored and compared with the source.
+
 package litestream
 
 import (
